@@ -3,7 +3,7 @@ CONSTANTS
   ElemIgnore = TRUE
   Shape <- AliasShape
   MinVisSet <- PubOnly
-  File2Srcs <- None
+  File2Srcs <- AliasSrcs
   ClassHeads <- AliasHeads
   NestedKeys <- None
   MemberAlpha <- AliasMembers
@@ -14,9 +14,9 @@ CONSTANTS
   ClassComments <- NoComment
   TopAlpha <- AliasTops
   MaxTops = 1
-  AliasAlpha <- AliasForms
-  MaxAliases = 2
-  CmdKinds <- IgnInv
+  AliasAlpha <- AliasFormsF
+  MaxAliases = 1
+  CmdKinds <- None
 INVARIANT SafeVis
 INVARIANT SafeAccess
 INVARIANT SafeKind
